@@ -584,9 +584,22 @@ Definition mismatch (c : case) : bool :=
                                   end) perms)
   end.
 
+(* a pattern text in which every square bracket and brace is escaped and no backslash is left dangling (esc = the previous
+   byte was an escaping backslash). snapd rejects unescaped brackets in patterns and expands every group, so a rendered variant
+   must satisfy this: otherwise doublestar reads a character class or a group the user never wrote. Independent of the renderer. *)
+Fixpoint scan_ok (esc : bool) (s : bytes) : bool :=
+  match s with
+  | [] => negb esc
+  | c :: r => if esc then scan_ok false r
+              else if c =? cBSL then scan_ok true r
+              else if (c =? cLBR) || (c =? cRBR) || (c =? cOPEN) || (c =? cCLOSE) then false
+              else scan_ok false r
+  end.
+
 (* the property on the observed behaviour, without the model functions:
    CPat: ParsePathPattern and json.Unmarshal (UnmarshalJSON) agree on accept/reject and on the count; the reported count equals the number of enumerated expansions (the driver stops enumerating at 1001) and of
-   rendered variants, and is at most 1000; for every path the original pattern matches iff some rendered variant matches.
+   rendered variants, and is at most 1000; no rendered variant contains an unescaped bracket or brace; for every path the original pattern matches
+   iff some rendered variant matches.
    CPrec: every permutation selects the same variant; Compare is sign-antisymmetric and 0 only between equal variants. *)
 Definition monitor_fail (c : case) : bool :=
   match c with
@@ -596,6 +609,7 @@ Definition monitor_fail (c : case) : bool :=
   | CPat _ (Some (n, raws, vars, paths)) (Some (nj, cj)) =>
       negb (nj =? n)%Z || negb (nj =? Z.of_N cj)%Z
       || negb (n =? Z.of_nat (length raws))%Z || (1000 <? n)%Z
+      || existsb (fun v => negb (scan_ok false (fst v))) vars
       || (if (0 <? n)%Z && (n <=? 1000)%Z then negb (n =? Z.of_nat (length vars))%Z else false)
       || existsb (fun pm => match pm with (_, orig, vm) => negb (Bool.eqb orig (existsb (fun b => b) vm)) end) paths
   | CPrec _ vs cmps perms =>
